@@ -22,12 +22,13 @@ type replayFile struct {
 	Site     string           `json:"site"`
 	Inputs   []exec.ReplayVal `json:"inputs"`
 	Sched    []int            `json:"sched"`
+	SchedPos []string         `json:"sched_pos,omitempty"`
 	Trace    []string         `json:"trace,omitempty"`
 	Path     string           `json:"path_decisions,omitempty"`
 }
 
 func writeReplayFile(prop string, v *exec.Violation, pkgRel string, n int) string {
-	rf := replayFile{Property: prop, Harness: v.Harness, PkgRel: pkgRel, Kind: v.Kind, Msg: v.Msg, Site: v.Site, Inputs: v.Inputs, Sched: v.Sched, Trace: v.Trace, Path: v.PathID}
+	rf := replayFile{Property: prop, Harness: v.Harness, PkgRel: pkgRel, Kind: v.Kind, Msg: v.Msg, Site: v.Site, Inputs: v.Inputs, Sched: v.Sched, SchedPos: v.SchedPos, Trace: v.Trace, Path: v.PathID}
 	if rf.Inputs == nil {
 		rf.Inputs = []exec.ReplayVal{}
 	}
@@ -92,10 +93,14 @@ func nativeReplay(path string) (bool, string) {
 			return false, err.Error()
 		}
 	}
-	defer os.RemoveAll(work)
+	if os.Getenv("VERIF_KEEP_WORK") == "" {
+		defer os.RemoveAll(work)
+	} else {
+		fmt.Fprintln(os.Stderr, "keeping work dir", work)
+	}
 	pkgDir := filepath.Join(repoDir, rf.PkgRel)
 	name, _ := packageName(pkgDir)
-	testSrc := fmt.Sprintf("package %s\n\nimport \"testing\"\n\nfunc TestVerifReplay(t *testing.T) {\n\t%s()\n}\n", name, rf.Harness)
+	testSrc := fmt.Sprintf("package %s\n\nimport \"testing\"\n\nfunc TestVerifReplay(t *testing.T) {\n\tverifMainHere()\n\t%s()\n}\n", name, rf.Harness)
 	ov[filepath.Join(pkgDir, "zz_verif_replay_test.go")] = []byte(testSrc)
 	repl := map[string]string{}
 	i := 0
@@ -115,7 +120,7 @@ func nativeReplay(path string) (bool, string) {
 	if rf.PkgRel == "" {
 		pat = "."
 	}
-	cmd := osexec.CommandContext(ctx, "go", "test", "-vet=off", "-count=1", "-timeout", "20s", "-run", "^TestVerifReplay$", "-overlay", ovPath, pat)
+	cmd := osexec.CommandContext(ctx, "go", "test", "-v", "-vet=off", "-count=1", "-timeout", "20s", "-run", "^TestVerifReplay$", "-overlay", ovPath, pat)
 	cmd.Dir = repoDir
 	abs, _ := filepath.Abs(path)
 	cmd.Env = append(os.Environ(), "GOFLAGS=-mod=mod", "GOPROXY=off", "GOSUMDB=off", "GOTOOLCHAIN=local", "VERIF_REPLAY="+abs)
